@@ -596,6 +596,9 @@ def _scenario_step(st: State, n, r):
                     'expect': 'accept', 'reuse': 'scenario'}
         # an equivalent unit, declared as multiple of the reference unit
         k = model.term_factor(items)
+        if k.numerator.bit_length() > 6000 or \
+                k.denominator.bit_length() > 6000:
+            return None
         return {'a': 'scaled_unit', 'type': tn, 'sym': f'u{n}',
                 'parent': model.types[tn]['ref'],
                 'k': {'t': 'frac', 'v': str(k)}, 'via': 'rmul',
